@@ -21,6 +21,8 @@ type cacheFunctions[MetadataT any] struct {
 	getCacheSize  func() int64
 	getCacheLen   func() int
 	getLock       func(key CacheKey) *sync.RWMutex
+	// Looks up the current metadata of a key. The key's lock must be held by the caller.
+	getMetadata func(key CacheKey) (*EntryMetadata[MetadataT], bool)
 }
 
 type cacheJanitor[MetadataT any] struct {
@@ -123,6 +125,14 @@ func (j *cacheJanitor[MetadataT]) cleanExpiredEntries() {
 		locked := lock.TryLock()
 		if !locked {
 			slog.Info("Failed to acquire lock for key", "key", key.Hex)
+			continue
+		}
+
+		// The scan above ran without the lock: the entry may have been overwritten with a fresh
+		// response (or revalidated) since. Only remove it if it is still expired now.
+		if meta, ok := j.cacheFns.getMetadata(key); !ok || !meta.Expires.Before(time.Now()) {
+			lock.Unlock()
+			slog.Info("Cache entry is no longer expired, keeping it", "key", key.Hex)
 			continue
 		}
 
